@@ -274,6 +274,23 @@ func runC02(prop string, res *Result, pool *DrvPool, r *Rng) {
 		conservationCheck(res, op, &got, nil)
 		modelScan(pool, res, op, got, nil)
 	}
+	// a dump of many thousand goroutines between two lines of text: nothing but the dump is withheld
+	{
+		var sb strings.Builder
+		sb.WriteString("before the dump\n")
+		for g := 1; g <= 12000; g++ {
+			fmt.Fprintf(&sb, "goroutine %d [IO wait]:\nmain.serve(0x%x)\n\t/srv/app/conn.go:%d +0x2b\n\n", g, 0xc000000000+g*64, 40+g%7)
+		}
+		sb.WriteString("after the dump\nlast line\n")
+		data := sb.String()
+		op := &ScanOp{Op: "scan", Data: hb(data), Sched: genSched(r, len(data)), Final: "eof"}
+		got := implScan(op)
+		small := &ScanOp{Op: "scan", Data: hb(clip(data)), Sched: []int{}, Final: "eof"}
+		res.Count("many-goroutines")
+		if got.Panic || got.Fwd.String() != "before the dump\n" || got.Rest.String() != "after the dump\nlast line\n" || len(got.Snap) != 12000 {
+			res.Violation(Finding{Stream: "scan", What: fmt.Sprintf("a dump of 12000 goroutines between two lines of text: %d goroutines parsed, forwarded %q, remainder %q (error %q)", len(got.Snap), clip(got.Fwd.String()), clip(got.Rest.String()), got.Err), Op: small})
+		}
+	}
 	for i := 0; i < n; i++ {
 		// (1) adversarial junk streams, single call
 		data, hasDump := genStream(r)
